@@ -164,6 +164,7 @@ type Program struct {
 	Generic bool   // enclosing function is generic
 	TyAlias bool   // package ty imported under an alias
 	Quirk   string // source-level quirk for known streams ("" = none)
+	Site    string // call site of the directive: assign | return | if | arg
 
 	// flow
 	Params  []int
@@ -295,7 +296,11 @@ func (p *Program) SpecLines() []string {
 	if quirk == "" {
 		quirk = "-"
 	}
-	add("P %d meta stream=%s generic=%d tyalias=%d quirk=%s", p.PID, p.Stream, b2i(p.Generic), b2i(p.TyAlias), quirk)
+	site := p.Site
+	if site == "" {
+		site = "assign"
+	}
+	add("P %d meta stream=%s generic=%d tyalias=%d quirk=%s site=%s", p.PID, p.Stream, b2i(p.Generic), b2i(p.TyAlias), quirk, site)
 	if p.Kind == "flow" {
 		if len(p.Params) > 0 {
 			add("P %d params %s", p.PID, spaceList(p.Params))
@@ -517,6 +522,7 @@ func ParseFile(lines []string) ([]*Program, error) {
 				if kv["quirk"] != "-" {
 					p.Quirk = kv["quirk"]
 				}
+				p.Site = kv["site"]
 			case "params":
 				for _, x := range rest {
 					p.Params = append(p.Params, atoi(x))
